@@ -37,7 +37,7 @@ var c18Roles = []string{"C12", "C14", "C12", "C14", "C07", "C06", "C15", "C16", 
 
 func (c18) ID() string     { return "C18" }
 func (c18) Level() string  { return "exploration" }
-func (c18) QuickRuns() int { return 160 }
+func (c18) QuickRuns() int { return 320 }
 func (c18) Rule() string {
 	return "each evaluation is one world of 2-6 parties with roles drawn from {System+RunUntil+Logger, bare cpu65c816, bare cpualt with DisassembleTo, emitter build/clone/finalize/listing, ROM streams, bus routing, mapper/colour/header loops} (identical twins deliberately included), each party's script first executed alone, then all interleaved under k seeded schedules (quick 4, thorough 24) whose switch probability per yield point is drawn from {0, 5e-6, 1e-4, 2e-3, 5e-2, 0.5} with switches forced after fault events; distinct = distinct scenario hash; non-trivial = at least one context switch occurred while two parties were alive; distinct_schedules counts distinct (site class, party) switch sequences"
 }
